@@ -37,9 +37,13 @@ def apply_edits(d, edits):
     return None
 
 
-def run_on(prop, repo, tier="quick"):
+def run_on(prop, repo, tier="quick", share=None):
+    """share: a dict reused between calls on the same tree, so that every configuration / harness is extracted once."""
     mod = importlib.import_module("props." + prop)
     ctx = check.Ctx(prop, tier=tier, repo=repo, quiet=True)
+    if share is not None:
+        ctx._facts = share.setdefault("facts", {})
+        ctx._harness = share.setdefault("harness", {})
     mod.run(ctx)
     known = {k["key"] for k in check.load_known() if k.get("status") == "known" and k.get("property") == prop}
     bad = [o for o in ctx.obligations if not o["ok"] and o["key"] not in known]
